@@ -156,3 +156,8 @@ pub fn decode(mut idx: u64, radices: &[u64], out: &mut Vec<u64>) {
 pub fn product(radices: &[u64]) -> u64 {
     radices.iter().product()
 }
+
+/// The repository under test (the harness's path dependencies point at it): /repo unless VERIF_REPO is set
+pub fn repo_root() -> String {
+    std::env::var("VERIF_REPO").unwrap_or_else(|_| "/repo".to_string())
+}
